@@ -1148,8 +1148,8 @@ class Facts:
                 if b.j.get('kind') != 'closure' and not b.j.get('impl_trait'):
                     # a new function that itself dispatches on the schema node is a cell table of its own: the dispatch
                     # matrices follow calls to it (nesting its match inside a caller's arm would blur both)
-                    # (a `matches!(node, SchemaNode::Enum(..))` test is not a dispatch: three or more arms are)
-                    dispatches = any(blk['term'].get('k') == 'switch' and len(blk['term'].get('targets', []) or []) >= 3 and
+                    # (a `matches!(node, SchemaNode::Enum(..))` test is not a dispatch: two or more explicit arms are)
+                    dispatches = any(blk['term'].get('k') == 'switch' and len(blk['term'].get('targets', []) or []) >= 2 and
                                      any('assign' in st and st['rv'].get('k') == 'discr' and (st['rv'].get('adt') or '').endswith('self_referential::SchemaNode') for st in blk['stmts'])
                                      for blk in b.blocks)
                     if not dispatches:
